@@ -17,6 +17,9 @@ import time
 
 VERIF = os.path.dirname(os.path.dirname(os.path.abspath(__file__)))
 SPEC = os.path.join(VERIF, "spec")
+# where evidence/ and replays/ are written: /verif itself, unless a self-test run against a scratch copy of the
+# repository redirects them (selftest/run_seeded.sh) so that the committed evidence only ever stems from /repo
+OUT = os.environ.get("VERIF_OUT") or VERIF
 REPO = os.environ.get("CMINX_REPO", "/repo")
 CMINX_SRC = os.environ.get("CMINX_SRC", os.path.join(REPO, "src"))
 TLA_CP = "/opt/veriftools/tla/tla2tools.jar:/opt/veriftools/tla/CommunityModules-deps.jar"
@@ -174,7 +177,7 @@ class Run:
         self.notes = {}
         self.assumptions = []
         self.exhaustive = True
-        shutil.rmtree(os.path.join(VERIF, "replays", pid), ignore_errors=True)
+        shutil.rmtree(os.path.join(OUT, "replays", pid), ignore_errors=True)
         kf = os.path.join(VERIF, "known_findings.json")
         self.known = [f for f in json.load(open(kf))["findings"]] if os.path.exists(kf) else []
 
@@ -217,7 +220,7 @@ class Run:
         if f is not None:
             self.known_hits[f["id"]] = self.known_hits.get(f["id"], 0) + 1
             return False
-        d = os.path.join(VERIF, "replays", pid)
+        d = os.path.join(OUT, "replays", pid)
         os.makedirs(d, exist_ok=True)
         body = {"property": pid, "why": why, "case": case, "expected": expected, "observed": observed,
                 "tier": self.tier, "seed": self.seed,
@@ -254,8 +257,8 @@ class Run:
         ev = {"property_id": self.pid, "tier": self.tier, "seed": self.seed, "level": self.level,
               "coverage": cov, "assumptions": self.assumptions, "wall_s": round(wall, 2),
               "violations": len(self.violations)}
-        os.makedirs(os.path.join(VERIF, "evidence"), exist_ok=True)
-        with open(os.path.join(VERIF, "evidence", self.pid + ".json"), "w") as fh:
+        os.makedirs(os.path.join(OUT, "evidence"), exist_ok=True)
+        with open(os.path.join(OUT, "evidence", self.pid + ".json"), "w") as fh:
             json.dump(ev, fh, indent=1, default=str)
         for fid, n in sorted(self.known_hits.items()):
             f = next(x for x in self.known if x["id"] == fid)
